@@ -1639,6 +1639,387 @@ fn run_flac(s: &mut Session, rng: &mut Rng, args: &Args, mul: u64) {
 	s.notes.push("FLAC: files of the modelled subset (STREAMINFO + fixed-blocksize frames, CONSTANT / VERBATIM subframes, 8/16/24 bit, CRC-8 / CRC-16) from the harness's own encoder, whose bytes the model re-derives; malformed stream = one frame damaged with the container intact (reserved subframe type, reserved sample-size code, wasted-bits flag, CRC-16, CRC-8) or the file cut inside it, for every frame index; the monitor accepts an error value or a prefix of the audio ending at a frame boundary at or before the damaged frame. A frame whose wasted-bits flag was set still has one reading as FLAC (followed by surplus bits before the CRC); a loader returning exactly that reading is tolerated and counted (flac_wasted_flag_lenient_reading_tolerated). Ogg/MP3 'intact container, undecodable packet' files are not generated (a valid Ogg page around a corrupted Vorbis packet needs a Vorbis bitstream writer)".into());
 }
 
+// ------------------------------------------------------------------------------------------
+// (f) faults of the MEDIUM between the file and the sound: directed, fixed scenarios
+// ------------------------------------------------------------------------------------------
+// The property quantifies over fault sequences; random corruption of the BYTES never produces the two
+// faults below, which are faults in TIME and of a single OPERATION: the last packet of the file is slow
+// to arrive (cold cache, network file system), and one seek fails after the reader was already
+// repositioned (I/O fault / damaged page met while bisecting).  The harness cannot implement symphonia's
+// `MediaSource` (kira does not re-export it), so the file is read through the other public entry point,
+// `StreamingSoundData::from_decoder`, with a decoder that conforms to the `Decoder` contract over the
+// frames LOADING the file gave, packetised as symphonia's WAV reader packetises it (1152 frames, the
+// last packet shorter) -- the "any conforming decoder" of `streaming_equals_static`.
+// These scenarios do not depend on args.seed and draw nothing from the generator.
+const PKT: usize = 1152;
+#[derive(Debug)]
+struct MediumError(&'static str);
+struct MediumCtl {
+	/// `decode()` of the packet that starts at this frame blocks until `release`
+	slow_packet_at: Option<usize>,
+	entered_slow: std::sync::atomic::AtomicBool,
+	release: std::sync::atomic::AtomicBool,
+	/// when armed: the next `seek` moves the reader to `displace_to` and then returns an error (once)
+	seek_fault_armed: std::sync::atomic::AtomicBool,
+	displace_to: usize,
+	seek_faults: std::sync::atomic::AtomicUsize,
+	/// end of the last packet handed out
+	decoded_upto: std::sync::atomic::AtomicUsize,
+}
+impl MediumCtl {
+	fn new(slow_packet_at: Option<usize>, displace_to: usize) -> std::sync::Arc<MediumCtl> {
+		std::sync::Arc::new(MediumCtl {
+			slow_packet_at,
+			entered_slow: Default::default(),
+			release: Default::default(),
+			seek_fault_armed: Default::default(),
+			displace_to,
+			seek_faults: Default::default(),
+			decoded_upto: Default::default(),
+		})
+	}
+}
+struct FileDecoder {
+	audio: std::sync::Arc<Vec<kira::Frame>>,
+	sr: u32,
+	next: usize,
+	ctl: std::sync::Arc<MediumCtl>,
+}
+impl kira::sound::streaming::Decoder for FileDecoder {
+	type Error = MediumError;
+	fn sample_rate(&self) -> u32 {
+		self.sr
+	}
+	fn num_frames(&self) -> usize {
+		self.audio.len()
+	}
+	fn decode(&mut self) -> Result<Vec<kira::Frame>, MediumError> {
+		use std::sync::atomic::Ordering::SeqCst;
+		let n = self.audio.len();
+		if self.next >= n {
+			return Err(MediumError("end of stream"));
+		}
+		if self.ctl.slow_packet_at == Some(self.next) {
+			// the medium is slow to deliver this packet
+			self.ctl.entered_slow.store(true, SeqCst);
+			let t0 = Instant::now();
+			while !self.ctl.release.load(SeqCst) && t0.elapsed() < Duration::from_secs(30) {
+				std::thread::sleep(Duration::from_micros(200));
+			}
+		}
+		let end = (self.next + PKT).min(n);
+		let v = self.audio[self.next..end].to_vec();
+		self.next = end;
+		self.ctl.decoded_upto.store(end, SeqCst);
+		Ok(v)
+	}
+	fn seek(&mut self, index: usize) -> Result<usize, MediumError> {
+		use std::sync::atomic::Ordering::SeqCst;
+		if self.ctl.seek_fault_armed.swap(false, SeqCst) {
+			// the reader was repositioned (as a bisecting container reader does) before the fault was met
+			self.next = self.ctl.displace_to.min(self.audio.len());
+			self.ctl.seek_faults.fetch_add(1, SeqCst);
+			return Err(MediumError("I/O fault while seeking (reader already repositioned)"));
+		}
+		// lands on the packet grid at or before the wanted frame (C18/Run.v `wav_land`)
+		let i = index.min(self.audio.len()) / PKT * PKT;
+		self.next = i;
+		Ok(i)
+	}
+}
+/// the index an index-coded frame (see `index_coded`) carries
+fn index_of(f: (f32, f32)) -> i128 {
+	let lo = (f.0 * 32768.0) as i64 + 16384;
+	let hi = (f.1 * 32768.0) as i64 - 1;
+	(hi * 32768 + lo - 1) as i128
+}
+fn frames_of(stat: &[(f32, f32)]) -> std::sync::Arc<Vec<kira::Frame>> {
+	std::sync::Arc::new(stat.iter().map(|f| kira::Frame::new(f.0, f.1)).collect())
+}
+struct MediumRun {
+	out: Vec<(f32, f32)>,
+	/// the slow packet was asked for / the seek fault was delivered
+	reached: bool,
+	/// Stopped was observed after this many rendered frames although the slow packet had not been delivered
+	stopped_before_release: Option<usize>,
+	stopped: bool,
+	error: Option<String>,
+	issued_at: Vec<usize>,
+	state: String,
+}
+/// SLOW LAST PACKET.  The sound streams `stat` (index-coded, never silent) from `start`; the decoder's
+/// final packet (one frame, starting at n-1) is held back; the audio callback plays everything that was
+/// buffered (a whole number of buffers) and runs 3 more times, then the packet is delivered and rendering
+/// goes on until the sound is Stopped.
+fn slow_tail_run(stat: &[(f32, f32)], sr: u32, start: usize) -> Option<Result<MediumRun, String>> {
+	use std::sync::atomic::Ordering::SeqCst;
+	let audio = frames_of(stat);
+	with_watchdog(60, move || {
+		let n = audio.len();
+		let ctl = MediumCtl::new(Some(n - 1), 0);
+		let dec = FileDecoder { audio: audio.clone(), sr, next: 0, ctl: ctl.clone() };
+		let data = StreamingSoundData::from_decoder(dec).start_position(PlaybackPosition::Samples(start));
+		let mut m = simple_manager(sr, CH);
+		let mut r = MediumRun { out: vec![], reached: false, stopped_before_release: None, stopped: false, error: None, issued_at: vec![], state: String::new() };
+		let mut h = match m.play(data) {
+			Ok(h) => h,
+			Err(_) => {
+				ctl.release.store(true, SeqCst);
+				r.state = "play() failed".into();
+				return r;
+			}
+		};
+		// the decoder thread buffers everything before the last packet and then waits for the medium
+		let t0 = Instant::now();
+		while !ctl.entered_slow.load(SeqCst) && t0.elapsed() < Duration::from_secs(10) {
+			std::thread::sleep(Duration::from_micros(500));
+		}
+		r.reached = ctl.entered_slow.load(SeqCst);
+		let buffered = (n - 1).saturating_sub(start);
+		for _ in 0..(buffered / CH + 3) {
+			let c = m.backend_mut().callback_stereo(CH);
+			r.out.extend(c.iter().map(|f| (f.left, f.right)));
+			if r.stopped_before_release.is_none() && h.state() == PlaybackState::Stopped {
+				r.stopped_before_release = Some(r.out.len());
+			}
+		}
+		// the packet arrives
+		ctl.release.store(true, SeqCst);
+		let t1 = Instant::now();
+		while t1.elapsed() < Duration::from_secs(3) {
+			std::thread::sleep(Duration::from_micros(500));
+			let c = m.backend_mut().callback_stereo(CH);
+			r.out.extend(c.iter().map(|f| (f.left, f.right)));
+			if h.state() == PlaybackState::Stopped {
+				r.stopped = true;
+				break;
+			}
+		}
+		r.state = format!("{:?}", h.state());
+		r.error = h.pop_error().map(|e| format!("{:?}", e));
+		r
+	})
+}
+fn check_slow_tail(s: &mut Session, n: usize, start: usize) {
+	let sr = 48000;
+	let bytes = encode(Fmt::I16, 2, sr, &index_coded(n));
+	let stat = match load_static(&bytes) {
+		Load::Ok { frames, .. } if frames.len() == n => frames,
+		g => {
+			s.fail(format!("index-coded WAV i16 stereo {} frames", n), format!("loading gave {}", g.short()), None);
+			return;
+		}
+	};
+	let desc = format!(
+		"index-coded WAV i16 stereo rate={} frames={} (fnv {:#x}; {} whole packets of 1152 frames + a final packet holding the last frame alone), streamed from frame {} through a conforming decoder over the loaded frames whose FINAL packet is slow to arrive: the audio callback ({} frames per callback) plays the {} buffered frames, runs 3 more times, then the packet is delivered",
+		sr,
+		n,
+		fnv(&bytes),
+		(n - 1) / PKT,
+		start,
+		CH,
+		(n - 1).saturating_sub(start)
+	);
+	s.eval_only("stream_slow_last_packet");
+	let r = match slow_tail_run(&stat, sr, start) {
+		Some(Ok(r)) => r,
+		Some(Err(m)) => {
+			s.fail(desc, format!("PANIC({})", m), None);
+			return;
+		}
+		None => {
+			s.fail(desc, "HANG: the scenario did not finish within 60 s".into(), None);
+			return;
+		}
+	};
+	if !r.reached {
+		s.notes.push(format!("slow-last-packet scenario n={} start={}: the decoder thread did not ask for the last packet within 10 s (state {}); not evaluated", n, start, r.state));
+		s.count("stream_slow_last_packet_not_reached");
+		return;
+	}
+	// the clause: streaming yields the same frames as loading -- every frame from `start` on, in order,
+	// exactly once; silence while the sound waits for its decoder is not a frame of the file
+	let audible: Vec<(f32, f32)> = r.out.iter().copied().filter(|f| canon(f.0) != 0 || canon(f.1) != 0).collect();
+	let expect = &stat[start.min(n)..];
+	let first_diff = (0..audible.len().min(expect.len())).find(|&i| (canon(audible[i].0), canon(audible[i].1)) != (canon(expect[i].0), canon(expect[i].1)));
+	if audible.len() != expect.len() || first_diff.is_some() {
+		let what = match first_diff {
+			Some(i) => format!("non-silent output frame {} is ({:#x},{:#x}) = index {} of the file; loading gives index {} there", i, audible[i].0.to_bits(), audible[i].1.to_bits(), index_of(audible[i]), start + i),
+			None => format!(
+				"loading gives {} frames from frame {} on, streaming played {} of them (last frame played: index {}; last frame of the file: index {})",
+				expect.len(),
+				start,
+				audible.len(),
+				audible.last().map(|f| index_of(*f)).unwrap_or(-1),
+				n - 1
+			),
+		};
+		s.fail(
+			desc.clone(),
+			format!(
+				"{}; {}; state at the end {}, error {:?}",
+				what,
+				match r.stopped_before_release {
+					Some(k) => format!("the sound was Stopped after {} rendered frames, while its last frame was still being read", k),
+					None => "the sound was not Stopped before the packet arrived".into(),
+				},
+				r.state,
+				r.error
+			),
+			None,
+		);
+	} else if let Some(k) = r.stopped_before_release {
+		s.fail(desc.clone(), format!("the sound was declared finished (Stopped after {} rendered frames) while its last frame was still being read", k), None);
+	} else if r.error.is_some() {
+		s.fail(desc.clone(), format!("a decoder error was reported for a file that loads: {:?}", r.error), None);
+	} else if !r.stopped {
+		s.fail(desc.clone(), format!("HANG: every frame was played but the sound is not Stopped 3 s after the last packet arrived (state {})", r.state), None);
+	}
+	// the model: which indices reach the ring (hence the output) when n frames are streamed from start
+	let idx: Vec<i128> = audible.iter().map(|f| index_of(*f)).collect();
+	if !idx.is_empty() {
+		// (an empty observation -- a monitor failure already -- would leave the shard's list type open)
+		s.case("stream_slow_last_packet_indices", format!("CStreamStart {} {}", n, start), &idx, Some(format!("slowtail/{}/{}", n, start)));
+		s.flush();
+	}
+}
+
+/// FAILED SEEK.  A long index-coded file is streamed from the start; after 4 callbacks a `seek_to(target)`
+/// is issued and -- if `fault` -- the decoder's seek fails once after having moved its reader elsewhere.
+fn seek_fault_run(stat: &[(f32, f32)], sr: u32, target: usize, displace_to: usize, fault: bool) -> Option<Result<MediumRun, String>> {
+	use std::sync::atomic::Ordering::SeqCst;
+	let audio = frames_of(stat);
+	with_watchdog(60, move || {
+		let ctl = MediumCtl::new(None, displace_to);
+		let dec = FileDecoder { audio: audio.clone(), sr, next: 0, ctl: ctl.clone() };
+		let mut m = simple_manager(sr, CH);
+		let mut r = MediumRun { out: vec![], reached: false, stopped_before_release: None, stopped: false, error: None, issued_at: vec![], state: String::new() };
+		let mut h = match m.play(StreamingSoundData::from_decoder(dec)) {
+			Ok(h) => h,
+			Err(_) => {
+				r.state = "play() failed".into();
+				return r;
+			}
+		};
+		// let the decoder thread fill its ring (16384 frames)
+		let t0 = Instant::now();
+		while ctl.decoded_upto.load(SeqCst) < 16384 && t0.elapsed() < Duration::from_secs(10) {
+			std::thread::sleep(Duration::from_micros(500));
+		}
+		let render = |m: &mut Mgr, r: &mut MediumRun| -> bool {
+			let c = m.backend_mut().callback_stereo(CH);
+			r.out.extend(c.iter().map(|f| (f.left, f.right)));
+			c.iter().all(|f| f.left == 0.0 && f.right == 0.0)
+		};
+		for _ in 0..4 {
+			render(&mut m, &mut r);
+		}
+		if fault {
+			ctl.seek_fault_armed.store(true, SeqCst);
+		}
+		let mut pos = target as f64 / sr as f64;
+		if (pos * sr as f64).round() as usize != target {
+			pos = (target as f64 + 0.25) / sr as f64;
+		}
+		h.seek_to(pos);
+		r.issued_at.push(r.out.len());
+		// everything that was buffered before the seek plays out first: render well past it
+		let goal = r.out.len() + 16384 + 6 * PKT;
+		let t1 = Instant::now();
+		let mut since_pause = 0;
+		while r.out.len() < goal && t1.elapsed() < Duration::from_secs(20) {
+			since_pause += CH;
+			if since_pause >= 2048 {
+				since_pause = 0;
+				std::thread::sleep(Duration::from_micros(2000));
+			}
+			let silent = render(&mut m, &mut r);
+			if h.state() == PlaybackState::Stopped {
+				r.stopped = true;
+				break;
+			}
+			if silent {
+				std::thread::sleep(Duration::from_micros(300));
+			}
+		}
+		r.reached = ctl.seek_faults.load(SeqCst) > 0;
+		r.state = format!("{:?}", h.state());
+		if !r.stopped {
+			h.stop(Tween { duration: Duration::ZERO, ..Default::default() });
+			for _ in 0..2000 {
+				let _ = m.backend_mut().callback_stereo(CH);
+				if h.state() == PlaybackState::Stopped {
+					break;
+				}
+			}
+		}
+		r.error = h.pop_error().map(|e| format!("{:?}", e));
+		r
+	})
+}
+fn check_seek_fault(s: &mut Session, n: usize, target: usize, displace_to: usize, fault: bool) {
+	let sr = 48000;
+	let bytes = encode(Fmt::I16, 2, sr, &index_coded(n));
+	let stat = match load_static(&bytes) {
+		Load::Ok { frames, .. } if frames.len() == n => frames,
+		g => {
+			s.fail(format!("index-coded WAV i16 stereo {} frames", n), format!("loading gave {}", g.short()), None);
+			return;
+		}
+	};
+	let desc = format!(
+		"index-coded WAV i16 stereo rate={} frames={} (fnv {:#x}), streamed from frame 0 through a conforming decoder over the loaded frames (packets of 1152); after 256 rendered frames seek_to(frame {}) is issued{}",
+		sr,
+		n,
+		fnv(&bytes),
+		target,
+		if fault { format!(" and the decoder's seek FAILS once: it moves its reader to frame {} and then returns Err (I/O fault met while seeking)", displace_to) } else { " (control: no fault)".into() }
+	);
+	s.eval_only(if fault { "stream_failed_seek" } else { "stream_failed_seek_control" });
+	let r = match seek_fault_run(&stat, sr, target, displace_to, fault) {
+		Some(Ok(r)) => r,
+		Some(Err(m)) => {
+			s.fail(desc, format!("PANIC({})", m), None);
+			return;
+		}
+		None => {
+			s.fail(desc, "HANG: the scenario did not finish within 60 s".into(), None);
+			return;
+		}
+	};
+	if fault && !r.reached {
+		s.notes.push(format!("failed-seek scenario: the decoder's seek was never called after seek_to (state {}, {} frames rendered); not evaluated", r.state, r.out.len()));
+		s.count("stream_failed_seek_not_reached");
+		return;
+	}
+	// the clause: an error value or the valid audio -- what is heard is the loaded audio from the start,
+	// continued at most by the loaded audio from the seek target; never audio from anywhere else
+	let seeks = [(r.issued_at[0], target)];
+	let p = Played { open: Load::Ok { rate: sr, frames: vec![] }, num_frames: n, out: r.out.clone(), issued_at: r.issued_at.clone(), error: r.error.clone(), stopped: r.stopped, hang: false, idle_timeout: false, released: true, wait_cpu_ms: 0, wait_wall_ms: 0 };
+	let outcome = format!("state after rendering {}, pop_error() = {:?}", r.state, r.error);
+	match match_stream(&stat, 0, &seeks, &p) {
+		Err(e) => {
+			// where did playback go?
+			let idx: Vec<i128> = r.out.iter().filter(|f| canon(f.0) != 0 || canon(f.1) != 0).map(|f| index_of(*f)).collect();
+			let jump = (1..idx.len()).find(|&i| idx[i] != idx[i - 1] + 1 && idx[i] != target as i128);
+			let j = match jump {
+				Some(i) => format!("; playback went from index {} to index {} of the file, which is neither the next frame nor the seek target {}", idx[i - 1], idx[i], target),
+				None => String::new(),
+			};
+			s.fail(desc, format!("{}{}; {}", e, j, outcome), None);
+		}
+		Ok((k, _)) => {
+			if fault && r.error.is_some() && !r.stopped {
+				s.fail(desc, format!("a decoder error was reported but the sound did not stop: {}", outcome), None);
+			} else if !fault && (r.error.is_some() || k != 1) {
+				s.fail(desc, format!("a seek on a healthy stream was not honoured ({} seeks honoured): {}", k, outcome), None);
+			} else {
+				s.count(if r.error.is_some() { "stream_failed_seek_error_value" } else if k == 1 { "stream_seek_honoured_after_fault_or_control" } else { "stream_failed_seek_ignored" });
+			}
+		}
+	}
+}
+
 pub fn run(args: &Args) {
 	let mut rng = Rng::new(args.seed ^ 0xC18);
 	let mul = args.budget_mul * if args.thorough { 8 } else { 1 };
@@ -1826,6 +2207,21 @@ pub fn run(args: &Args) {
 		}
 	}
 	lap("generated WAV streaming done");
+	// ---------- (f) faults of the medium: directed scenarios, the same on every run ---------------
+	// the last packet (one frame: lengths = 1 mod 1152) is slow to arrive; the number of frames buffered
+	// before it is a whole number of callbacks, so that the sound starves between callbacks (starving in
+	// the middle of a callback is C10's subject)
+	for (n, start) in [(2 * PKT + 1, 0usize), (PKT + 1, 0), (2 * PKT + 1, 2 * PKT), (1, 0), (2 * PKT + 1, PKT + 10 * CH), (3 * PKT + 1, 5 * CH)] {
+		check_slow_tail(&mut s, n, start);
+	}
+	// a seek that fails after the reader was moved: forward target beyond the buffered audio, reader
+	// displaced further on / back to the start (with more than a ring of audio left behind the displaced
+	// reader: a reader that runs into the end of the file reports an error before anything it delivered
+	// is heard); and the same seek on a healthy stream
+	check_seek_fault(&mut s, 60_000, 20_000, 25 * PKT, true);
+	check_seek_fault(&mut s, 60_000, 40_000, 0, true);
+	check_seek_fault(&mut s, 60_000, 30_000, 39 * PKT, false);
+	lap("medium faults (slow last packet, failed seek) done");
 	// the assets shipped with the repository
 	let assets = ["sine.wav", "blip.ogg", "score.ogg", "drums.ogg", "dynamic/arp.ogg", "dynamic/bass.ogg", "dynamic/drums.ogg", "dynamic/lead.ogg", "dynamic/pad.ogg"];
 	for (ai, a) in assets.iter().enumerate() {
